@@ -10,6 +10,10 @@ names = sorted(os.listdir("/verif/seeded"))
 
 def one(name):
     prop = name.split("-")[0]
+    try:
+        prop = json.load(open(f"/verif/seeded/{name}/meta.json")).get("check", prop)
+    except Exception:
+        pass
     env = dict(os.environ, VERIF_SEED=seed)
     r = subprocess.run(["/verif/tools/try_mutant.sh", f"/verif/seeded/{name}/patch.diff", prop], capture_output=True,
                        text=True, env=env, cwd="/verif")
